@@ -970,8 +970,61 @@ func ruleNilFlag(r *Report) {
 					}
 					seeks := CallsIn(fn, Keys("os.File.Seek"))
 					if len(seeks) > 0 {
-						// skip flavour: the seek distance must depend on the flag (phi merging the nil edge)
+						// skip flavour: the seek distance is decided by the flag — the test is on every path to the seek
+						// (not nested under the compression case), and what reaches the distance arithmetic is the phi that
+						// merges the constant 0 of the nil edge (nothing re-assigns the amount behind it)
 						used = true
+						for _, sk := range seeks {
+							if !reachFrom(b, nil)[sk.Block] {
+								continue
+							}
+							if !b.Dominates(sk.Block) {
+								used = false
+								continue
+							}
+							var zeroPhi *ssa.Phi
+							for _, jb := range liveBlocks(fn) {
+								for _, ins := range jb.Instrs {
+									ph, isPhi := ins.(*ssa.Phi)
+									if !isPhi {
+										break
+									}
+									for ei, e := range ph.Edges {
+										if cst, isC := e.(*ssa.Const); isC && cst.Value != nil && cst.Uint64() == 0 {
+											pred := jb.Preds[ei]
+											if pred == b.Succs[0] || (pred == b && jb == b.Succs[0]) {
+												zeroPhi = ph
+											}
+										}
+									}
+								}
+							}
+							direct := false
+							if zeroPhi != nil {
+								var walk func(v ssa.Value, d int) bool
+								walk = func(v ssa.Value, d int) bool {
+									if d > 8 {
+										return false
+									}
+									if v == ssa.Value(zeroPhi) {
+										return true
+									}
+									switch y := v.(type) {
+									case *ssa.BinOp:
+										return walk(y.X, d+1) || walk(y.Y, d+1)
+									case *ssa.Convert:
+										return walk(y.X, d+1)
+									case *ssa.ChangeType:
+										return walk(y.X, d+1)
+									}
+									return false
+								}
+								direct = walk(sk.Call().Common().Args[len(sk.Call().Common().Args)-2], 0)
+							}
+							if !direct {
+								used = false
+							}
+						}
 					} else if !readAfterNil {
 						used = true
 					}
@@ -980,7 +1033,7 @@ func ruleNilFlag(r *Report) {
 			if used {
 				r.OK(rule, key, s.Pos(), "nil flag decides payload consumption")
 			} else {
-				r.Bad(rule, key, s.Pos(), "the nil flag is read but does not guard the payload consumption")
+				r.Bad(rule, key, s.Pos(), "the nil flag is read but does not decide the payload consumption on every path: a nil record in a compressed file carries the codec's size for the empty input in its header (1 to 23 bytes) but no payload — skipping it by that size lands inside the next record")
 			}
 		}
 	}
